@@ -192,4 +192,6 @@ func edge2Stream(r *vh.Rng, sum *vh.Summary) {
 			}
 		}
 	}
+	// field names that need json escaping, multi-byte characters across indefinite-length chunk boundaries (edge3.go)
+	edge3Stream(r, sum)
 }
